@@ -13,7 +13,8 @@
 (* walk prints exactly one line.                                             *)
 EXTENDS IndexOps, TLC, Json
 
-CONSTANTS MinSteps, MaxSteps
+CONSTANTS MinSteps, MaxSteps,
+          Volume      \* TRUE: also offer the macro calls appendn / catn (many Records / Streams at once)
 VARIABLES st, hist, done
 vars == <<st, hist, done>>
 
@@ -38,6 +39,23 @@ TinyV == {Zero, One}
 TinyP == {BigOf(4)}
 TinyF == {F(1), F(10)}
 
+\* volume plans: Record counts around INDEX_GROUP_SIZE = 512 and its multiples, Stream counts around 2^k
+\* (the rotations of the sequentially filled AVL trees of index.c depend on the node count only)
+VolN == {1, 2, 510, 511, 512, 513, 1023, 1025}
+VolS == {1, 2, 3, 4, 5, 7, 9, 15, 17, 31, 33}
+CandAppendN(s) == IF ~Volume THEN {} ELSE
+    {Op("appendn", k, 0, u, v, n, 0, NoFlags) : k \in LiveSlots(s), u \in {U5, U8, U128}, v \in {Zero, One, BigOf(128)},
+                                               n \in {n \in VolN : NRecords(s) + n <= MaxRecs}}
+CandCatN(s) == IF ~Volume THEN {} ELSE
+    {Op("catn", k, j, U8, v, n, m, f) : k \in LiveSlots(s), j \in {0, 1}, v \in {Zero, BigOf(128)}, m \in {0, 1, 2},
+                                       f \in {NoFlags, F(1), F(4)},
+                                       n \in {n \in VolS : NStreams(s) + n <= MaxStreams /\ NRecords(s) + 2 * n <= MaxRecs}}
+
+\* the macro call catn is the repeated cat it stands for
+ASSUME \A n \in 1..3 : \A f \in {NoFlags, F(1)} : \A d \in {EmptyIndex, DoFlags(DoAppend(EmptyIndex, U5, One).idx, F(10)).idx} :
+          LET s == [recs |-> Copies(Rec(U8, One), 2), flags |-> f, pad |-> BigOf(4)]
+          IN  Apply([St0 EXCEPT !.reg[1] = d], Op("catn", 1, 1, U8, One, n, 2, f)).st.reg[1] = CatNRepeated(d, s, n)
+
 Running == ~done /\ Len(hist) < MaxSteps
 Do(o) == st' = Apply(st, o).st /\ hist' = Append(hist, o) /\ UNCHANGED done
 Init == st = St0 /\ hist = <<>> /\ done = FALSE
@@ -58,6 +76,9 @@ Next == \/ Running /\ \E o \in CandInit(st) : Do(o)
         \/ Running /\ \E o \in CandIterNext(st) : Do(o)
         \/ Running /\ \E o \in CandIterNext(st) : Do(o)
         \/ Running /\ \E o \in CandIterLocate(st) : Do(o)
+        \/ Running /\ \E o \in CandAppendN(st) : Do(o)
+        \/ Running /\ \E o \in CandAppendN(st) : Do(o)
+        \/ Running /\ \E o \in CandCatN(st) : Do(o)
         \/ Finish
 Spec == Init /\ [][Next]_vars
 View == <<st, done>>
